@@ -169,7 +169,8 @@ def rooms(
         dtype=int,
     )
 
-    if len(y_splits) != len(set(y_splits)):
+    # every room needs at least one row of cells between its walls
+    if np.any(np.diff(y_splits) < 2):
         raise ValueError(
             f'insufficient height ({shape.height}) for layout ({layout})'
         )
@@ -181,7 +182,8 @@ def rooms(
         dtype=int,
     )
 
-    if len(x_splits) != len(set(x_splits)):
+    # every room needs at least one column of cells between its walls
+    if np.any(np.diff(x_splits) < 2):
         raise ValueError(
             f'insufficient width ({shape.width}) for layout ({layout})'
         )
@@ -540,7 +542,8 @@ def memory_rooms(
         dtype=int,
     )
 
-    if len(y_splits) != len(set(y_splits)):
+    # every room needs at least one row of cells between its walls
+    if np.any(np.diff(y_splits) < 2):
         raise ValueError(
             f'insufficient shape.height ({shape.height}) for layout ({layout})'
         )
@@ -552,7 +555,8 @@ def memory_rooms(
         dtype=int,
     )
 
-    if len(x_splits) != len(set(x_splits)):
+    # every room needs at least one column of cells between its walls
+    if np.any(np.diff(x_splits) < 2):
         raise ValueError(
             f'insufficient shape.width ({shape.width}) for layout ({layout})'
         )
